@@ -339,6 +339,44 @@ theorem bumpStr_unit (t n : Int) (u : Char) (hu : u ∈ periodUnits) (st : Step)
 
 example : bumpUnit 'B'.toLower (-3) = some (.bday (-3)) ∧ 'B' ∈ periodUnits := by decide
 
+/-- text that follows the last period token without being one (`'1dUTC'`, `'1b est'`, `'2dxyz'`, `'1d 2d'`): the parts in front are
+applied left to right and THEN the model answers ValueError — whatever step error comes first wins.  The code tries the leftover as
+a time-zone name at that point (`tz_convert(t, leftover)`, line 423) and raises ValueError when `as_tz` does not know it; which
+names it knows depends on the pytz data base and on today's date (`tzname(now)`), so the conversion is NOT modelled: the theorem
+describes the model for every leftover and the code for every leftover that is not a zone name -/
+theorem tenor_then_leftover (ks : List Tok) (wf : ∀ k ∈ ks, k.WF) (rest : List Char) (hn : nextToken rest = none) (t : Int) :
+    bumpCs (ks.flatMap Tok.text ++ rest) t = (runToks t ks).bind fun t' => if rest.isEmpty then .ok t' else .error .value := by
+  induction ks generalizing t with
+  | nil =>
+    simp only [List.flatMap_nil, List.nil_append, bumpCs, runToks]
+    unfold loop
+    rw [hn]; rfl
+  | cons k ks ih =>
+    have wk : k.WF := wf k (by simp)
+    have ih' := fun t' => ih (fun x hx => wf x (by simp [hx])) t'
+    simp only [List.flatMap_cons, List.append_assoc, bumpCs, runToks, applyTok]
+    unfold loop
+    rw [nextToken_text k wk]
+    simp only []
+    have hlen : (ks.flatMap Tok.text ++ rest).length < (k.text ++ (ks.flatMap Tok.text ++ rest)).length := by
+      simp only [List.length_append, Tok.text, List.length_cons, List.length_nil]; omega
+    cases hb : bumpUnit k.unit k.value with
+    | none =>
+      simp only [Except.bind]
+      rw [loop_fuel _ ((ks.flatMap Tok.text ++ rest).length + 1) _ _ hlen (by omega)]
+      exact ih' t
+    | some st =>
+      simp only []
+      cases applyStep t st with
+      | error e => rfl
+      | ok t' =>
+        simp only [Except.bind]
+        rw [loop_fuel _ ((ks.flatMap Tok.text ++ rest).length + 1) _ _ hlen (by omega)]
+        exact ih' t'
+
+example : nextToken "utc".toList = none ∧ nextToken " est".toList = none ∧ nextToken " 2d".toList = none ∧ nextToken "europe/london".toList = none := by
+  decide
+example : okVal (bumpStr 63082281600000000 "1dUTC") = none ∧ okVal (bumpStr 63082281600000000 "1d") = some 63082368000000000 := by decide +kernel
 /-- compound tenors such as `'1y-3m2d'` apply their parts left to right: the compound text does what `dt_bump` called with
 the parts as separate arguments does -/
 theorem tenors_left_to_right (t : Int) (ps : List (Int × Char)) (hu : ∀ p ∈ ps, LowerUnit p.2) :
